@@ -5,7 +5,7 @@ from xmlcanon import esc_attr, esc_text
 
 RICH = ['&', '<', '>', '"', "'", ']]>', '--', '---', '-', 'é', '中', '\U0001F600', ' ', ';', '&amp;', '&lt;', '%', '/', '=',
         '?>', '<!--', '-->', '#', '(', ')', '{', '}', '*', '+', ',', '.', ':', '@', '!', '~', '|', '_', '[', ']']
-WORDS = ['hello', 'world', 'a', 'b', 'x1', 'Text', '42', '3.5', 'multi word', 'AT&T', 'a<b', 'q"q', "it's", 'a[i[0]]>0', ']]>', 'a -> b', 'x <- y']
+WORDS = ['hello', 'world', 'a', 'b', 'x1', 'Text', '42', '3.5', 'multi word', 'AT&T', 'a<b', 'q"q', "it's", 'a[i[0]]>0', ']]>', 'a -> b', 'x <- y', 'a ->- b', '-<-', '->->-']
 COLOURS = ['red', 'blue', 'green', 'none', '#fff', 'rgb(1,2,3)']
 CLASSES = ['d-red', 'd-fill-blue', 'd-text-bigger', 'd-thick', 'd-dash', 'd-arrow', 'd-softshadow', 'd-text-bold', 'd-grid-5', 'd-stripe-10',
            'mine', 'x-y', 'd-text-italic', 'd-surround', 'd-flow', 'd-text-pre', 'R&D', 'a<b', 'q"q']
@@ -117,8 +117,14 @@ def gen_doc(rng, root_attrs=None, text_heavy=False):
     return '<svg%s>%s%s%s</svg>' % (ra, sep, sep.join(parts), sep[:1])
 
 
+def esc_attr_min(v):
+    """the least escaping XML asks for inside double quotes: '>' and the apostrophe stay as they are"""
+    return v.replace('&', '&amp;').replace('<', '&lt;').replace('"', '&quot;')
+
+
 def xmlgen_el(name, attrs, content=None):
-    a = ''.join(' %s="%s"' % (k, esc_attr(v)) for k, v in attrs)
+    # both spellings of an attribute value occur (chosen by the value itself, so that documents stay a function of the seed)
+    a = ''.join(' %s="%s"' % (k, esc_attr_min(v) if len(v) % 3 == 0 else esc_attr(v)) for k, v in attrs)
     if content is None:
         return '<%s%s/>' % (name, a)
     return '<%s%s>%s</%s>' % (name, a, content, name)
